@@ -192,6 +192,8 @@ func (box *boxTracker) compactRules(rules []css_ast.Rule, keyRange logger.Range,
 		if loc := rules[side.ruleIndex].Loc; i == 0 || loc.Start < minLoc.Start {
 			minLoc = loc
 		}
+	}
+	for _, side := range box.sides {
 		rules[side.ruleIndex] = css_ast.Rule{}
 	}
 
